@@ -723,7 +723,137 @@ def check_corner(lib, spec):
     return ok, {"got": got[:9], "finite_difference": ref[:9], "worst": worst, "tolerance": tol}
 
 
-CHECKS = {"constructor": check_constructor, "trajectory": check_trajectory, "rescale": check_rescale, "megno": check_megno, "megno_order": check_megno_order, "python_vary": check_python_vary, "multiset": check_multiset, "softening": check_softening, "rescale_mass": check_rescale_mass, "derived": check_derived, "corner": check_corner}
+def check_history(lib, spec):
+    """An object with history must continue like a FRESH object holding the same particles, time, settings, variation sets and
+    lrescale: after an automatic rescale, after switching the integrator and back, after a refused particle removal, after
+    `del sim.particles` + re-adding everything, after a second init_megno.  Fixed-step integrators (safe mode): bit for bit;
+    IAS15/BS keep a legitimate memory (predictor, proposed step): compared at equal times to 1e-11 (IAS15) / 1e-9 (BS, eps 1e-13)."""
+    import struct, warnings
+    rb = lib.rb
+    F7 = ["m"] + C6
+    integ, hist = spec["integrator"], spec["history"]
+    fixed = integ in ("whfast", "leapfrog")
+    eft = 0 if fixed else 1
+
+    def base():
+        sim = rb.Simulation()
+        sim.integrator = integ
+        if fixed:
+            sim.dt = 0.02
+        sim.ri_bs.eps_rel = 1e-13       # BS: the adaptive step sequence is legitimate memory; make its effect small
+        sim.ri_bs.eps_abs = 1e-13
+        sim.add(m=1.)
+        sim.add(m=1e-3, a=1., e=0.1, f=spec["f1"])
+        sim.add(m=5e-4, a=spec["a2"], e=0.05, f=2.)
+        return sim
+
+    def go(sim, T):
+        sim.integrate(sim.t + T, exact_finish_time=(0 if sim.integrator in ("whfast", "leapfrog") else 1))
+        sim.synchronize()
+
+    def fresh_from(h, nsets, megno_last=False):
+        f = rb.Simulation()
+        f.G = h.G; f.integrator = h.integrator; f.dt = h.dt; f.t = h.t; f.softening = h.softening
+        f.ri_bs.eps_rel = h.ri_bs.eps_rel; f.ri_bs.eps_abs = h.ri_bs.eps_abs
+        nreal = h.N - h.N_var
+        for i in range(nreal):
+            p = h.particles[i]
+            f.add(m=p.m, x=p.x, y=p.y, z=p.z, vx=p.vx, vy=p.vy, vz=p.vz)
+        for k in range(nsets):
+            if megno_last and k == nsets - 1:
+                f.init_megno(seed=1)
+            else:
+                f.add_variation()
+        for k in range(nsets):
+            hv, fv = h.var_config[k], f.var_config[k]
+            for ph, pf in zip(hv.particles, fv.particles):
+                for c in F7:
+                    setattr(pf, c, getattr(ph, c))
+            fv.lrescale = hv.lrescale
+        return f
+
+    def state(sim):
+        out = [sim.t, float(sim._calculate_megno), float(sim.N), float(sim.N_var)]
+        for i in range(sim.N):
+            out += [getattr(sim.particles[i], c) for c in F7]
+        out += [sim.var_config[k].lrescale for k in range(sim.N_var_config)]
+        if sim._calculate_megno:
+            out += [sim._megno_Ys, sim._megno_Yss, float(sim._megno_n)]
+        return out
+    with warnings.catch_warnings():
+        warnings.simplefilter("ignore")
+        h = base()
+        nsets, megno_last = 1, False
+        if hist == "rescale_continue":
+            v = h.add_variation(); v.vary(1, "a")
+            for p in v.particles:
+                for c in F7:
+                    setattr(p, c, getattr(p, c) * spec["big"])
+            go(h, 40.)
+            if not h.var_config[0].lrescale > 0:
+                raise Inconclusive("no rescale happened")
+        elif hist == "switch_back":
+            v = h.add_variation(); v.vary(2, "e"); go(h, 4.)
+            other = "ias15" if integ != "ias15" else "whfast"
+            h.integrator = other
+            if other == "whfast":
+                h.dt = 0.02
+            go(h, 3.)
+            h.integrator = integ
+            if fixed:
+                h.dt = 0.02
+        elif hist == "refused_remove":
+            v = h.add_variation(); v.vary(1, "a"); go(h, 4.)
+            try:
+                h.remove(2)
+                raise RuntimeError("removing a real particle with variational particles present was accepted")
+            except RuntimeError as e:
+                if "not supported" not in str(e):
+                    raise
+            drain_messages(h)
+        elif hist in ("remove_all_readd", "megno_remove_all"):
+            if hist == "megno_remove_all":
+                h.init_megno(seed=3)
+            else:
+                va = h.add_variation(); va.vary(1, "a")
+            vb = h.add_variation(); vb.vary(2, "e")
+            go(h, 3.)
+            keep = [[getattr(h.particles[i], c) for c in F7] for i in range(h.N)]
+            t0 = h.t
+            del h.particles
+            for i in range(3):
+                h.add(**dict(zip(F7, keep[i])))
+            if hist == "remove_all_readd":
+                nsets = 2
+                for k in range(2):
+                    v = h.add_variation()
+                    for j, p in enumerate(v.particles):
+                        for c, val in zip(F7, keep[3 + 3 * k + j]):
+                            setattr(p, c, val)
+            else:
+                nsets = 0          # nothing variational is re-added: no MEGNO, no variational particle may be touched or read
+        elif hist == "megno_twice":
+            h.init_megno(seed=5); go(h, 3.)
+            h.init_megno(seed=6)
+            nsets, megno_last = 2, True
+        else:
+            raise RuntimeError("unknown history")
+        f = fresh_from(h, nsets, megno_last)
+        go(h, spec["tmax"]); go(f, spec["tmax"])
+        a, b = state(h), state(f)
+    bits = lambda v: struct.pack("<d", v)
+    if len(a) != len(b):
+        return False, {"history": a[:8], "fresh": b[:8], "lengths": (len(a), len(b))}
+    if fixed:
+        ok = all(bits(x) == bits(y) for x, y in zip(a, b))
+    else:
+        ok = all((x == y) or (x != x and y != y) or abs(x - y) <= (1e-11 if integ == "ias15" else 1e-9) * max(1.0, abs(y)) for x, y in zip(a, b))
+    k = next((i for i, (x, y) in enumerate(zip(a, b)) if bits(x) != bits(y)), None)
+    return ok, {"first_difference_at": k, "history": a[k] if k is not None else None, "fresh": b[k] if k is not None else None,
+                "calculate_megno": (h._calculate_megno, f._calculate_megno)}
+
+
+CHECKS = {"constructor": check_constructor, "trajectory": check_trajectory, "rescale": check_rescale, "megno": check_megno, "megno_order": check_megno_order, "python_vary": check_python_vary, "multiset": check_multiset, "softening": check_softening, "rescale_mass": check_rescale_mass, "derived": check_derived, "corner": check_corner, "history": check_history}
 
 
 def pairs_available(lib):
@@ -890,6 +1020,26 @@ def search(ctx, rebound, libdir):
     for integ in ("ias15", "bs"):
         for mode in ("tp_first", "tp_last", "after_error"):
             do("corner", {"mode": mode, "integrator": integ, "coord": rng.choice(C6), "tmax": rng.uniform(3, 6)}, ("corner", mode, integ))
+
+    # (b'''') history vs fresh
+    for integ in ("whfast", "leapfrog", "ias15", "bs"):
+        for hist in ("rescale_continue", "switch_back", "refused_remove", "remove_all_readd", "megno_twice", "megno_remove_all"):
+            if hist.startswith("megno") and integ in ("leapfrog", "bs"):
+                continue        # MEGNO is accumulated by WHFast, IAS15 (and EOS) only; megno_remove_all: fixed finding (/repo c7dcae8), kept as regression
+            spec = {"integrator": integ, "history": hist, "big": 10 ** rng.uniform(99.2, 99.8), "f1": rng.uniform(0, 6),
+                    "a2": rng.uniform(1.7, 2.3), "tmax": rng.uniform(4, 9)}
+            if hist == "megno_remove_all":
+                try:
+                    ok, det = check_history(lib, spec)
+                except Exception as e:
+                    ok, det = False, {"exception": repr(e)}
+                ctx.case(key=("history", hist, integ))
+                if not ok:
+                    ctx.violation("megno_stale_after_remove_all", {"check": "history", "spec": spec, "detail": det}, True,
+                                  "after `del sim.particles` calculate_megno keeps the index of the removed MEGNO particles: the "
+                                  "integrators keep accumulating MEGNO from particles beyond N")
+            else:
+                do("history", spec, ("history", hist, integ))
 
     # (c) rescaling and chaos indicators
     for integ, sm in (("ias15", None), ("whfast", 1), ("whfast", 0), ("leapfrog", None)):
